@@ -415,6 +415,7 @@ class Engine:
         max_steps=400_000,
         on_boundary=None,
         light_every_step=False,
+        light_window=None,
     ):
         self.world = world
         self.programs = programs
@@ -430,6 +431,7 @@ class Engine:
         self.light = monitor.light_objects() if light_every_step else None
         self.light_fp = _fingerprint(self.light) if light_every_step else None
         self.light_checks = 0
+        self.light_window = light_window  # (first step, last step) or None = always
 
         self.abort_at = {}
         self.alloc_fail_at = set()
@@ -736,7 +738,7 @@ class Engine:
             raise OpTimeout()
         if self.write_since_last_point or step - self.last_check_step >= self.digest_every:
             self.check_digests(f"step {step}")
-        elif self.light_fp is not None:
+        elif self.light_fp is not None and (self.light_window is None or self.light_window[0] <= step <= self.light_window[1]):
             # transient stores into builtin containers (invisible to the write
             # tracer) are looked for at every single point
             self.light_checks += 1
